@@ -359,6 +359,9 @@ func playHand(o *Out, r *Rng, cfgLine string, probeP, viewP, hopP, malP float64)
 		if r.Chance(0.04) {
 			h.noise(r.Intn(5))
 		}
+		if r.Chance(0.05) {
+			h.query(r.Intn(4))
+		}
 		if r.Chance(hopP) {
 			switch {
 			case h.useTwin:
